@@ -173,6 +173,14 @@ func g() {
 `,
 }
 
+func init() {
+	// raw strings: with an empty line inside, starting and ending with a line break, as the last
+	// thing before a blank line
+	sinkSources = append(sinkSources, "package a\n\nvar r = `a\n\nb\nc`\n\nvar s = []string{\n\t// lead\n\t`\nx\n\n\ny\n`,\n\n\t/* block */ `z\nw`,\n}\n\nfunc u() {\n\tuse(`p\n\nq`)\n\n\tuse(s)\n}\n")
+	// embedded fields with tags, an else-if chain, a forward goto
+	sinkSources = append(sinkSources, "package a\n\ntype S struct {\n\tio.Reader `json:\"-\"`\n\t*Base     `yaml:\",inline\"` // b\n\tT[int]    `x:\"y\"`\n}\n\nfunc h(x int) int {\n\tif x > 0 {\n\t\treturn 1\n\t} else if x < 0 {\n\t\treturn -1\n\t} else if y := x; y == 7 {\n\t\tgoto L\n\t} else {\n\t\tx++\n\t}\nL:\n\tfor i := range []int{1} {\n\t\t_ = i\n\t}\n\treturn 0\n}\n")
+}
+
 var gorootFilesCache []string
 
 // gorootFiles lists .go files of $GOROOT/src below maxBytes, sorted (deterministic).
